@@ -99,8 +99,12 @@ func Spellings() []Input {
 			add(fmt.Sprintf("constant attribute %s%s%s next to expression attribute", q, v, q), "\t<a href="+q+v+q+" class={ x }>{ x }</a>")
 		}
 	}
-	inner := []string{"{ x }", "@c()", "@c() {\n\t<b>k</b>\n}", "{ children... }", "<script>var a = 1;</script>", "<style>a{}</style>", "<!-- c -->", "if b {\n\t<b>y</b>\n}", "for _, v := range xs {\n\t<b>{ v }</b>\n}", "text", "<br/>", "<b>bold</b>", "{ x /* c */ }", "{ fmt.Sprint(\n\tx,\n) }", "{ x... }", "{ xs... }"}
-	outer := []string{"<div>%s</div>", "<span>%s</span>", "<p>a %s b</p>", "<p>{ x }<a href=\"u\">%s\n</a></p>", "<li>%s</li>", "<div><span>%s</span>{ x }</div>", "<button>\n%s</button>", "<td>%s</td>"}
+	inner := []string{"{ x }", "@c()", "@c() {\n\t<b>k</b>\n}", "{ children... }", "<script>var a = 1;</script>", "<style>a{}</style>", "<!-- c -->", "if b {\n\t<b>y</b>\n}", "for _, v := range xs {\n\t<b>{ v }</b>\n}", "text", "<br/>", "<b>bold</b>", "{ x /* c */ }", "{ fmt.Sprint(\n\tx,\n) }", "{ x... }", "{ xs... }",
+		// elements whose tag the formatter lays out over several lines although it was written on one
+		"<span if b { class=\"a\" }>x</span>", "<a href=\"u\" if b { target=\"_blank\" }>l</a>", "<input if b { disabled }/>", "<b title=\"&#10;\">y</b>", "<i title={ /* c */ x }>z</i>",
+		"<span class={ \"a\",\n\"b\" }>m</span>", "<em\n\tid=\"k\"\n>e</em>"}
+	outer := []string{"<div>%s</div>", "<span>%s</span>", "<p>a %s b</p>", "<p>{ x }<a href=\"u\">%s\n</a></p>", "<li>%s</li>", "<div><span>%s</span>{ x }</div>", "<button>\n%s</button>", "<td>%s</td>",
+		"<div><p>%s</p></div>", "<ul><li><span>%s</span></li></ul>", "<p>{ x }%s</p>", "<p>%s{ x }</p>", "<div><b>k</b> %s <b>k</b></div>"}
 	for _, o := range outer {
 		for _, i := range inner {
 			if strings.HasPrefix(i, "@") || strings.HasPrefix(i, "if ") || strings.HasPrefix(i, "for ") {
